@@ -30,84 +30,47 @@ Proof.
   rewrite map_app, concat_app. fold (raw_layout h t s a). fold (raw_layout h t s (concat ls)). now rewrite IHls.
 Qed.
 
-(* the layout of the samples as the reader of codec e hands them over is the
-   layout in order (buf_sex e s) *)
-Definition buf_sex (e : codec) (s : sexflags) : sexflags := match e with Bin => s | Text => SexZero end.
-
 Lemma read_buf_layout h t e s vs : read_buf h t e s vs = raw_layout h t (buf_sex e s) vs.
 Proof. destruct e; reflexivity. Qed.
 
-(* general form: recoding is correct whenever the byte order in which the
-   source codec delivers (buf_sex ein sin) and the one the target codec expects
-   (buf_sex eout sout) are the ones _GD_FixEndianness is told about (sin, sout) *)
-Lemma mogrify_values_general h t ns ein eout sin sout vs :
-  1 <= ns -> Forall (wf_sample t) vs ->
-  (forall c, raw_layout h t (buf_sex ein sin) c = raw_layout h t sin c) ->
-  (forall c, raw_layout h t (buf_sex eout sout) c = raw_layout h t sout c) ->
-  mogrify_values h t ns ein eout sin sout vs = vs.
+Lemma stored_values_decode h t e s buf : stored_values h t e s buf = raw_decode h t (buf_sex e s) buf.
+Proof. destruct e; reflexivity. Qed.
+
+(* every pair of codecs (none, gzip, bzip2, lzma, sie data, text), every pair of byte orders incl.
+   ARM, every type, every length, every buffer size *)
+Theorem recode_preserves_all h t ns ein eout sin sout vs :
+  1 <= ns -> Forall (wf_sample t) vs -> mogrify_values h t ns ein eout sin sout vs = vs.
 Proof.
-  intros Hn F Hin Hout. unfold mogrify_values, mogrify_file.
+  intros Hn F. unfold mogrify_values, mogrify_file.
   assert (E : map (mogrify_chunk h t ein eout sin sout) (split_chunks (length vs) ns vs)
-              = map (raw_layout h t sout) (split_chunks (length vs) ns vs)).
-  { apply map_ext. intros c. unfold mogrify_chunk. rewrite read_buf_layout, Hin. apply fix_endianness_layout. }
+              = map (raw_layout h t (buf_sex eout sout)) (split_chunks (length vs) ns vs)).
+  { apply map_ext. intros c. unfold mogrify_chunk. rewrite read_buf_layout. apply fix_endianness_layout. }
   rewrite E, <- raw_layout_concat, split_chunks_concat by auto.
-  rewrite <- Hout. destruct eout; cbn [stored_values buf_sex]; now apply raw_decode_layout.
+  rewrite stored_values_decode. now apply raw_decode_layout.
 Qed.
 
-(* every pair of binary codecs (none, gzip, bzip2, lzma, sie data), every pair of
-   byte orders incl. ARM, every type, every length, every buffer size *)
-Theorem recode_preserves_binary h t ns sin sout vs :
-  1 <= ns -> Forall (wf_sample t) vs -> mogrify_values h t ns Bin Bin sin sout vs = vs.
-Proof. intros. apply mogrify_values_general; auto; intros; reflexivity. Qed.
+(* closed under composition: any sequence of recodings leaves the samples alone *)
+Definition recode_step (h : host) (t : gdtype) (vs : list sample) (o : nat * (codec * codec) * (sexflags * sexflags)) : list sample :=
+  mogrify_values h t (fst (fst o)) (fst (snd (fst o))) (snd (snd (fst o))) (fst (snd o)) (snd (snd o)) vs.
 
-(* text on either side: correct when the fragment orders involved are the host's *)
-Definition native_layout (h : host) (t : gdtype) (s : sexflags) : Prop :=
-  forall c, raw_layout h t s c = raw_layout h t SexZero c.
-
-Theorem recode_preserves_native h t ns ein eout sin sout vs :
-  1 <= ns -> Forall (wf_sample t) vs -> native_layout h t sin -> native_layout h t sout ->
-  mogrify_values h t ns ein eout sin sout vs = vs.
+Theorem recode_sequence_preserves h t (ops : list (nat * (codec * codec) * (sexflags * sexflags))) vs :
+  Forall (fun o => 1 <= fst (fst o)) ops -> Forall (wf_sample t) vs ->
+  fold_left (recode_step h t) ops vs = vs.
 Proof.
-  intros Hn F N1 N2. apply mogrify_values_general; auto.
-  - intros c. destruct ein; cbn [buf_sex]; [reflexivity|]. symmetry. apply N1.
-  - intros c. destruct eout; cbn [buf_sex]; [reflexivity|]. symmetry. apply N2.
-Qed.
-
-Lemma native_layout_little_x86 t : native_layout x86_64 t SexLittle.
-Proof. intros c. destruct t; reflexivity. Qed.
-
-Definition recode_statement : Prop :=
-  forall h t ns ein eout sin sout vs, 1 <= ns -> Forall (wf_sample t) vs ->
-    mogrify_values h t ns ein eout sin sout vs = vs.
-
-Theorem recode_refuted : ~ recode_statement.
-Proof.
-  intros H.
-  specialize (H x86_64 UINT16 4 Text Bin SexBig SexBig [[1]; [2]; [3]; [258]]%Z).
-  assert (W : Forall (wf_sample UINT16) [[1]; [2]; [3]; [258]]%Z).
-  { repeat constructor; cbn; lia. }
-  specialize (H (le_S _ _ (le_S _ _ (le_S _ _ (le_n _)))) W). vm_compute in H. discriminate.
+  induction ops as [|o r IH]; intros Fo Fv; [reflexivity|].
+  inversion Fo; subst. cbn [fold_left]. unfold recode_step at 2.
+  rewrite recode_preserves_all by auto. apply IH; auto.
 Qed.
 
 (* ------------------------------------------------------------ RAW type change *)
-Theorem retype_native conv h t t' e s vs :
+Theorem retype_preserves_all conv h t t' e s vs :
   Forall (wf_sample t) vs -> Forall (wf_sample t') (map conv vs) ->
-  native_layout h t (buf_sex e s) -> native_layout h t' (buf_sex e s) ->
   retype_values conv h t t' e s vs = map conv vs.
 Proof.
-  intros F F' N N'. unfold retype_values. rewrite read_buf_layout, N, raw_decode_layout by auto.
-  rewrite <- N'. destruct e; cbn [stored_values buf_sex]; now apply raw_decode_layout.
-Qed.
-
-Definition retype_statement : Prop :=
-  forall h t t' e s vs, Forall (wf_sample t) vs ->
-    retype_values (uint_conv t') h t t' e s vs = map (uint_conv t') vs.
-
-Theorem retype_refuted : ~ retype_statement.
-Proof.
-  intros H. specialize (H x86_64 UINT16 UINT32 Bin SexBig [[1]]%Z).
-  assert (W : Forall (wf_sample UINT16) [[1]]%Z) by (repeat constructor; cbn; lia).
-  specialize (H W). vm_compute in H. discriminate.
+  intros F F'. unfold retype_values. destruct e; cbn [ecor read_buf stored_values].
+  - rewrite !fix_endianness_layout. rewrite (raw_decode_layout h t SexZero vs F).
+    exact (raw_decode_layout h t' s _ F').
+  - rewrite (raw_decode_layout h t SexZero vs F). exact (raw_decode_layout h t' SexZero _ F').
 Qed.
 
 (* ------------------------------------------------------------ sample-rate change *)
